@@ -36,6 +36,10 @@ class Ctx:
         self.work = os.path.join(WORK, "%s-%s%s" % (pid, tier, suffix))
         # runs against a scratch worktree (seeded changes) must not overwrite the evidence of the real tree
         self.evid_dir = self.work if scratch else EVID
+        if pid.startswith("X") and not scratch:
+            # extension checks (behaviour beyond the listed properties, DESIGN section 10) keep their evidence apart
+            self.evid_dir = os.path.join(VERIF, "evidence_extra")
+            os.makedirs(self.evid_dir, exist_ok=True)
         self.replay_dir = os.path.join(self.work, "replays") if scratch else REPLAYS
         shutil.rmtree(self.work, ignore_errors=True)
         os.makedirs(self.work, exist_ok=True)
